@@ -36,9 +36,36 @@ def run_corpus(rep):
                                         "replay": p, "window_updates_for_stream_1": wus, "final_stream": fin})
 
 
+def run_known_corpus(rep):
+    """KF-C03-1 is replayed on every run: it must still behave as recorded (then it is printed as a known finding);
+    if it no longer does, the entry is stale and that is reported"""
+    p = os.path.join(common.VERIF, "corpus", "conn", "kf_c03_1_stream_window_after_recv_drop.json")
+    ok, binp, log = common.cargo_build("conn")
+    if not ok:
+        raise common.HarnessBuildError(log)
+    rc, out, _ = common.sh([binp, "--replay", p], timeout=120)
+    try:
+        o = json.loads(out.strip().splitlines()[-1])
+    except Exception:
+        rep.violation("broken-correspondence", {"what": "corpus replay did not run", "log": out[-2000:]}, no_input=True)
+        return
+    sent = sum(st["op"]["what"]["len"] for st in o["trace"] if st["op"].get("op") == "peer" and st["op"].get("what", {}).get("t") == "DATA")
+    stream_wu = [f for st in o["trace"] for f in st["out"] if f["t"] == "WINDOW_UPDATE" and f["sid"] == 1]
+    refused = [f for st in o["trace"] for f in st["out"] if f["t"] in ("RST_STREAM", "GOAWAY")]
+    listed = any(k.get("id") == "KF-C03-1" for k in common.load_known_findings().get("known", []))
+    still = sent > 65535 and not stream_wu and not refused
+    rep.oracle_runs.append({"name": "corpus:kf_c03_1", "cases": 1, "nontrivial": 1, "failures": 0, "still_reproduces": still})
+    if still and listed:
+        rep.known("KF-C03-1 after the RecvStream is dropped the stream-level window is neither enforced nor re-credited "
+                  "(%d bytes accepted on a 65535-byte stream window, no stream WINDOW_UPDATE)" % sent)
+    elif still:
+        rep.violation("failing-input", {"oracle": "stream window after the receive handle was dropped", "replay": p, "bytes_accepted": sent})
+
+
 def correspond(rep, tier, seed):
     rep.partial.extend(PARTIAL)
     run_corpus(rep)
+    run_known_corpus(rep)
     scs, failing = recvflow.correspond_recvflow(rep, tier, seed)
     n_viol = recvflow.oracle_recvflow(rep, scs)
     if failing and n_viol == 0:
